@@ -43,6 +43,7 @@ def check(ctx):
         r13_3(ctx, m, L)
         r13_4(ctx, m, L)
     ctx.run(r13_5, m, _independent=True)
+    ctx.run(r13_6, m, _independent=True)
     # helpers
     ctx.not_decided += [
         "a worker dying while it holds the result queue's internal write lock (the surviving workers then block inside multiprocessing)",
@@ -246,6 +247,14 @@ def r13_4(ctx, m, L):
                     bad = (p, f"sys.exit status {s!r}")
                 continue
             bad = (p, f"continues to write the results ('{p.term}')")
+    # the workers are joined without a time limit before their exit codes are read: after a timed join a worker that is still
+    # shutting down has exit code None, which the exit-code predicate takes for a failure (or, read the other way, for success)
+    for c_ in walk_own(pf.node):
+        if isinstance(c_, ast.Call) and isinstance(c_.func, ast.Attribute) and c_.func.attr == "join" and (c_.args or c_.keywords) and not isinstance(c_.func.value, ast.Constant) and not any(isinstance(a_, ast.Name) and a_.id in m.pqueues for a_ in c_.args):
+            recv_ = norm(c_.func.value)
+            is_proc = any(isinstance(l_, ast.For) and norm(l_.target) == recv_ and norm(l_.iter) in m.proc_lists for l_ in walk_own(pf.node))
+            if is_proc:
+                ctx.violated("R13.4", pf.where(c_), f"`{norm(c_)[:40]}` waits for a worker only for a limited time and the exit codes are read right after it: a worker that has delivered everything but needs longer to terminate still has exit code None there, so a healthy run is aborted (or a dead worker is taken for healthy, depending on how None is read)", key_of(pf, f"timed-join:{norm(c_)[:30]}"))
     # the list whose exit codes are tested must still hold the processes: emptying it while joining makes the test vacuous
     for i_, st in enumerate(region):
         if not isinstance(st, ast.If):
@@ -267,6 +276,28 @@ def r13_4(ctx, m, L):
         ctx.violated("R13.4", L.where(), what + " (exit codes are not tested after the loop)", key_of(pf, f"post-join-exitcodes:{norm(L.node.test)}"))
     else:
         ctx.check(bad is None, "R13.4", L.where(), what, key_of(pf, f"post-join-exit:{norm(L.node.test)}:{bad[1] if bad else ''}"), **({"path": bad[0].show(), "why": bad[1]} if bad else {}))
+
+
+def r13_6(ctx, m):
+    """A worker that is killed must look killed: no signal handler in the worker (or installed by the module) that hands over
+    the end marker and / or leaves with status 0 — the parent would take the batch for finished."""
+    wf = m.worker
+    mod = wf.module
+    n = 0
+    for f in mod.funcs.values():
+        for c in walk_own(f.node):
+            if isinstance(c, ast.Call) and norm(c.func) in ("signal.signal", "signal") and len(c.args) == 2:
+                n += 1
+                h = c.args[1]
+                hf = None
+                if isinstance(h, ast.Name):
+                    hf = next((g for g in mod.funcs.values() if g.name == h.id), None)
+                body = ast.walk(hf.node) if hf is not None else ast.walk(h)
+                masks = [x for x in body if isinstance(x, ast.Call) and ((isinstance(x.func, ast.Attribute) and x.func.attr == "put") or (norm(x.func) in ("sys.exit", "exit", "os._exit") and (not x.args or const_value(x.args[0], 1) in (0, None))))]
+                if masks or norm(h).endswith("SIG_IGN"):
+                    ctx.violated("R13.6", f.where(c), f"`{norm(c)[:60]}` installs a handler that " + ("ignores the signal" if not masks else f"does `{norm(masks[0])[:30]}`") + ": a worker that is terminated from outside (out-of-memory killer, kill) hands over its end marker and / or exits with status 0, so the parent takes its batch for finished and the command succeeds with records missing", key_of(f, f"signal-handler-masks-death:{norm(c.args[0])[:30]}"))
+    if n == 0:
+        ctx.holds("R13.6", wf.where(), "no signal handler is installed in the realign module: a killed worker is seen as killed (negative exit code, no end marker)", nontrivial=False)
 
 
 def r13_5(ctx, m):
